@@ -13,20 +13,22 @@
   `assign`, `roundingMode`, `>>=`, `++`, whose corner cases (shift by the full width) depend on the limb code: it is
   modelled on limb lists with the blockbinary model of UVerif.Model.Limbs (`w` = bits in a block).
 
-  The code is modelled AS IT IS.  Deviations from properties C03/C04/C15 that this model reproduces:
-    * Saturate, signed integer source: the range test is `v >= static_cast<Arith>(maxpos)`, i.e. against the integer
-      part of maxpos read into the SOURCE type: `v = floor(maxpos)` returns maxpos (not v) when rbits > 0, and when
-      the integer part does not fit the source type the threshold wraps (to −1 / 0);
-    * Saturate, unsigned integer source: `static_cast<Arith>(maxpos)` is `to_unsigned` = the RAW bit pattern read as
-      an integer (the radix point is ignored) and `static_cast<Arith>(maxneg)` is a huge unsigned number: almost every
-      source is "≤ maxneg";
-    * Saturate, float/double source: the thresholds are `float(maxpos)` / `float(maxneg)` — single precision even for a
-      double source; for nbits > 25 float(maxpos) rounds up to 2^(nbits−1−rbits) and sources just below it wrap;
-    * nbits > 64: `setbits(uint64)` does not sign-extend negative results; nbits − rbits > 64: the unsigned loop copies
-      only 64 − rbits bits;
-    * `to_signed` reads the integer-part bits (floor, not truncation toward zero); `to_unsigned` returns the raw bits;
-    * the size adapter copies raw bits when widening (D12), does nothing when narrowing to ≥ as many fraction bits,
-      never saturates.
+  The code is modelled AS IT IS (after the repair wave: the `fix:` commits "fixpnt Saturate conversion from a signed integer …",
+  "… from an unsigned integer …", "… must copy all 64 source bits …", "… must sign-extend beyond bit 63", "… must clamp values that
+  round up beyond maxpos", "… to a signed integer must truncate …", "… to an unsigned integer must return the integer part …"):
+    * Saturate, signed integer source: the range test `v > static_cast<Arith>(maxpos)`, `v <= static_cast<Arith>(maxneg)` (the
+      integer parts of maxpos / maxneg) is only made when the integer part fits the source type (nbits − rbits ≤ bits of Arith);
+    * Saturate, unsigned integer source: `v > (unsigned long long)(long long)(maxpos)` when nbits − rbits ≤ 64, no lower test;
+    * Saturate, float/double source: the thresholds are still `float(maxpos)` / `float(maxneg)` (float(maxpos) rounds UP to
+      2^(nbits−1−rbits) for nbits > 25), and a positive source whose rounding carried into the sign bit is replaced by maxpos;
+    * negative float/double sources: `setbits(uint64)` of the magnitude, then `twosComplement()` in all nbits;
+    * `to_signed` reads the integer-part bits and adds one for a negative value with a non-zero fraction (truncation toward
+      zero); `to_unsigned` is `to_signed<long long>` cast to the unsigned type;
+  (the size adapter has no deviation left: the radix point is aligned in every branch and a Saturate target clamps since the repairs
+      "fix: fixpnt size adapter must align the radix point when the target is at least as wide …",
+      "fix: fixpnt size adapter assigned nothing when narrowing to at least as many fraction bits",
+      "fix: fixpnt size adapter dropping every source bit turned small negative values into +1 ulp …",
+      "fix: fixpnt size adapter never saturated: a Saturate target wrapped values that do not fit".)
   Core Lean only.
 -/
 import UVerif.Basic
@@ -47,26 +49,23 @@ def maxnegP (n : Nat) : Nat := 2 ^ (n - 1)
 def signP (n p : Nat) : Bool := p.testBit (n - 1)
 /-- `setbits(uint64_t)`: the low 64 bits of the word, masked to nbits (no sign extension above bit 63) -/
 def setbits64 (n q : Nat) : Nat := (q % 2 ^ 64) % 2 ^ n
-/-- `(s ? ~x + 1 : x)` on a uint64_t -/
-def neg64 (s : Bool) (x : Nat) : Nat := if s then (2 ^ 64 - x % 2 ^ 64) % 2 ^ 64 else x % 2 ^ 64
 
 /-! ### fixpnt → native integers -/
 
 /-- `to_signed<NativeInt>()` with `sz` = bits of NativeInt; the result as an `sz`-bit two's complement pattern.
     The loop ORs bit i (rbits ≤ i < upper) into a `NativeInt mask` that is shifted out after `sz` steps; a negative
-    value is sign-extended from `upper` to `sz + rbits`. -/
+    value is sign-extended from `upper` to `sz + rbits`; a negative value with a non-zero fraction is then incremented
+    (`static_cast<NativeInt>(make_unsigned_t<NativeInt>(ll) + 1u)`): truncation toward zero. -/
 def toSignedPat (n r sz p : Nat) : Nat :=
   if n ≤ r then 0 else
   let upper := if n - r > 64 then r + 64 else n
   let ll := ((p >>> r) % 2 ^ (upper - r)) % 2 ^ sz
-  if signP n p && decide (upper < sz + r) then ll ||| (2 ^ sz - 2 ^ (upper - r)) else ll
+  let ll := if signP n p && decide (upper < sz + r) then ll ||| (2 ^ sz - 2 ^ (upper - r)) else ll
+  -- a negative value with a non-zero fraction: `ll + 1` in the unsigned type of the same width (truncation toward zero)
+  if signP n p && decide (p % 2 ^ r ≠ 0) then (ll + 1) % 2 ^ sz else ll
 
-/-- `blockbinary::to_long_long()` as a 64-bit pattern: the low min(nbits,64) bits, sign-extended when nbits < 64 -/
-def toLongLong (n p : Nat) : Nat :=
-  if n < 64 then ofSigned 64 (toSigned n p) else p % 2 ^ 64
-
-/-- `to_unsigned<NativeInt>()` = `NativeInt(_block.to_long_long())`: the RAW pattern, radix point ignored -/
-def toUnsignedPat (n sz p : Nat) : Nat := toLongLong n p % 2 ^ sz
+/-- `to_unsigned<NativeInt>()` = `static_cast<NativeInt>(to_signed<long long>())` -/
+def toUnsignedPat (n r sz p : Nat) : Nat := toSignedPat n r 64 p % 2 ^ sz
 
 /-! ### native integers → fixpnt (convert<Arith>, integral branches) -/
 
@@ -78,8 +77,9 @@ def fromSigned (n r : Nat) (sat : Bool) (sz : Nat) (v : Int) : Nat :=
   if v = 0 then 0 else
   let mp := toSigned sz (toSignedPat n r sz (maxposP n))
   let mn := toSigned sz (toSignedPat n r sz (maxnegP n))
-  if sat && decide (v ≥ mp) then maxposP n
-  else if sat && decide (v ≤ mn) then maxnegP n
+  -- the range test is compiled only when the integer part fits the source type: (nbits - rbits) <= 8 * sizeof(Arith)
+  if sat && decide (n - r ≤ sz) && decide (v > mp) then maxposP n
+  else if sat && decide (n - r ≤ sz) && decide (v ≤ mn) then maxnegP n
   else
     let mag := v.natAbs % 2 ^ sz
     let upper := min sz (n - r)
@@ -87,14 +87,13 @@ def fromSigned (n r : Nat) (sat : Bool) (sz : Nat) (v : Int) : Nat :=
     if v < 0 then twosComp n x else x
 
 /-- unsigned source of `sz` bits holding `v < 2^sz`. -/
-def fromUnsigned (n r : Nat) (sat : Bool) (sz : Nat) (v : Nat) : Nat :=
+def fromUnsigned (n r : Nat) (sat : Bool) (_sz : Nat) (v : Nat) : Nat :=
   if v = 0 then 0 else
-  let mp := toUnsignedPat n sz (maxposP n)
-  let mn := toUnsignedPat n sz (maxnegP n)
-  if sat && decide (v ≥ mp) then maxposP n
-  else if sat && decide (v ≤ mn) then maxnegP n
+  -- `static_cast<unsigned long long>(static_cast<long long>(maxpos))`, compiled only when nbits - rbits <= 64
+  let mp := toSignedPat n r 64 (maxposP n)
+  if sat && decide (n - r ≤ 64) && decide (v > mp) then maxposP n
   else
-    let upper := if n - r ≤ 64 then n else 64
+    let upper := if n - r ≤ 64 then n else r + 64
     (v % 2 ^ (upper - r)) <<< r
 
 /-! ### fixpnt → float / double (to_native<TargetFloat>) -/
@@ -141,10 +140,15 @@ def fromIeee (n r : Nat) (sat : Bool) (ew fb : Nat) (bits : Nat) : Nat :=
       if shiftRight > (fb : Int) + 1 then 0
       else if shiftRight > 0 then
         let q := Lns.Model.roundGRS fraction shiftRight.toNat       -- the same guard/round/sticky code as lns
-        setbits64 n (neg64 s q)
+        -- `f.setbits(fraction); if (s) f.twosComplement();` then, Saturate: `if (!s && f.sign()) f.maxpos();`
+        let x := setbits64 n q
+        let y := if s then twosComp n x else x
+        if sat && !s && signP n y then maxposP n else y
       else
         let sl := (-shiftRight).toNat
-        if sl < 64 - fb then setbits64 n (neg64 s (fraction <<< sl))
+        if sl < 64 - fb then
+          let x := setbits64 n (fraction <<< sl)
+          if s then twosComp n x else x
         else
           -- project the bits one by one (setbit is a no-op at or above nbits), then two's complement in nbits
           let x := (fraction <<< sl) % 2 ^ n
@@ -152,17 +156,46 @@ def fromIeee (n r : Nat) (sat : Bool) (ew fb : Nat) (bits : Nat) : Nat :=
 
 /-! ### the size adapter `fixpnt<n2,r2> = fixpnt<n1,r1>` (same arithmetic, same block type) -/
 
-/-- `prev` is the content of the target before the assignment (it survives when the adapter does nothing). -/
-def resize (w n1 r1 n2 r2 : Nat) (src prev : List Nat) : List Nat :=
+/-- the rounding branch `src_rbits > rbits` (the same code in the widening and in the narrowing branch):
+    `blockbinary<src_nbits + (src_rbits - rbits == src_nbits ? 1 : 0), bt> rawbb(a.bits())` (a copy, or a sign extension by one
+    bit when every source bit is shifted out), `roundingMode(src_rbits - rbits)`, arithmetic `>>=`, `++` when rounding up, and
+    `_block = rawbb` (blockbinary assign: sign-extends or truncates) -/
+def resizeRound (w n1 r1 n2 r2 : Nat) (src : List Nat) : List Nat :=
+  let k := r1 - r2
+  let M := if k = n1 then n1 + 1 else n1
+  let raw := if k = n1 then BB.assign w (n1 + 1) n1 src else src
+  let roundUp := BB.roundingMode w M raw k
+  let sh := BB.shr w M raw ((k : Nat) : Int)
+  let sh := if roundUp then BB.inc w M sh else sh
+  BB.assign w n2 M sh
+
+/-- the Modulo code path of the adapter (also executed by a Saturate target when no clamp applies) -/
+def resizeM (w n1 r1 n2 r2 : Nat) (src : List Nat) : List Nat :=
   if n1 ≤ n2 then
     -- `_block = a.bits()` (blockbinary assign: copy + sign-extend + mask); the explicit sign-extension loop repeats it
     let t := BB.assign w n2 n1 src
-    if n1 < n2 && BB.sign w n1 src then setRange w t n1 n2 true else t
-  else if r1 > r2 then
-    let roundUp := BB.roundingMode w n1 src (r1 - r2)
-    let sh := BB.shr w n1 src ((r1 - r2 : Nat) : Int)
-    let sh := if roundUp then BB.inc w n1 sh else sh
-    BB.assign w n2 n1 sh
-  else prev
+    let t := if n1 < n2 && BB.sign w n1 src then setRange w t n1 n2 true else t
+    if r1 > r2 then resizeRound w n1 r1 n2 r2 src
+    else if r1 < r2 then BB.shl w n2 t ((r2 - r1 : Nat) : Int)      -- `_block <<= rbits - src_rbits` in the target width
+    else t
+  else if r1 > r2 then resizeRound w n1 r1 n2 r2 src
+  else
+    -- `_block = a.bits()` truncates, then the same left shift
+    let t := BB.assign w n2 n1 src
+    if r1 < r2 then BB.shl w n2 t ((r2 - r1 : Nat) : Int) else t
+
+/-- `prev` is the content of the target before the assignment; since the repairs every branch assigns, `prev` is not read.
+    Saturate, `src_nbits + upshift > nbits` (otherwise every aligned value fits the target): the source bits are put into a
+    Modulo fixpnt of the source configuration, converted by the Modulo adapter into `fixpnt<src_nbits + upshift, rbits, Modulo>`
+    (wide enough for every rounded / scaled value), and compared as blockbinary<src_nbits + upshift> with the sign-extended
+    maxpos / maxneg of the target: `return *this = maxpos` / `maxneg`; otherwise the Modulo path runs. -/
+def resize (w n1 r1 n2 r2 : Nat) (sat : Bool) (src _prev : List Nat) : List Nat :=
+  let W := n1 + (r2 - r1)
+  if sat && decide (W > n2) then
+    let c := resizeM w n1 r1 W r2 src
+    if BB.ge w W c (BB.assign w W n2 (BB.maxpos w n2)) then BB.maxpos w n2
+    else if BB.le w W c (BB.assign w W n2 (BB.maxneg w n2)) then BB.maxneg w n2
+    else resizeM w n1 r1 n2 r2 src
+  else resizeM w n1 r1 n2 r2 src
 
 end UVerif.ConvFixpnt
